@@ -332,7 +332,10 @@ func (rn *runner) eqCase(c *Case) {
 	fv, fo := runEq(c.P, c.D, inp, false)
 	gv, g := runEq(c.P, c.D, inp, true)
 	rn.w.Count("Eq:" + eqNames[c.P] + ":" + fo + "/" + g)
-	if fo != "ok" && fo == g {
+	if fo == "timeout" || g == "timeout" {
+		// a deadline is not an observable of the property (robust to machine load): nothing to compare
+		fv, gv = nil, nil
+	} else if fo != "ok" && fo == g {
 		// both paths fail in the same way: nothing to compare (factorization defects are C05's)
 		fv, gv = nil, nil
 	} else if fo != g {
